@@ -173,7 +173,7 @@ class C19(Spec):
         r = rng.random()
         if r < 0.25:
             # sources of every shape a user may write; none needs a name lookup (they are opened after acceptance)
-            srcs = ["@a@127.0.0.1:1", "https://127.0.0.1:1/u", "", " ", "@", "!", "@@", "!x@", "@a", "/nonexistent/file.json", "./x", "../x",
+            srcs = ["@a@127.0.0.1:1", "https://127.0.0.1:1/u", "", " ", "@", "!", "@@", "!x@", "@a", "/nonexistent/file.json", "./x", "../x", "/etc/passwd", "/", "./",
                     "http://127.0.0.1:1/", "mailto:x", "%zz", "\t", "https://", "@\u00e9@127.0.0.1:1", "!a@127.0.0.1:1"]
             feeds = [("home", ("arr", [("str", rng.choice(srcs)) for _ in range(rng.randint(1, 3))])), ("empty", ("arr", []))]
             if rng.random() < 0.3:
